@@ -92,6 +92,10 @@ func applyTIFFPredictor2(data []byte, params Params) ([]byte, error) {
 		return nil, fmt.Errorf("TIFF Predictor 2 only supports 8 bits per component, got %d", bpc)
 	}
 
+	if err := checkPredictorGeometry(columns, colors); err != nil {
+		return nil, err
+	}
+
 	rowSize := columns * colors
 	if len(data)%rowSize != 0 {
 		return nil, fmt.Errorf("data size %d is not a multiple of row size %d", len(data), rowSize)
@@ -116,6 +120,16 @@ func applyTIFFPredictor2(data []byte, params Params) ([]byte, error) {
 	return result, nil
 }
 
+// checkPredictorGeometry rejects /Columns and /Colors values that cannot describe a row of
+// samples: they come from the file and are used as divisors and in size arithmetic.
+func checkPredictorGeometry(columns, colors int) error {
+	const maxSamples = 1 << 30 // keeps columns*colors+1 from overflowing
+	if columns < 1 || colors < 1 || columns >= maxSamples || colors >= maxSamples {
+		return fmt.Errorf("invalid predictor geometry: Columns=%d Colors=%d", columns, colors)
+	}
+	return nil
+}
+
 // applyPNGPredictor applies PNG predictor algorithms. Each row starts with
 // a predictor byte (0-4) that specifies which algorithm to use for that row.
 func applyPNGPredictor(data []byte, predictor int, params Params) ([]byte, error) {
@@ -125,6 +139,10 @@ func applyPNGPredictor(data []byte, predictor int, params Params) ([]byte, error
 
 	if bpc != 8 {
 		return nil, fmt.Errorf("PNG predictor only supports 8 bits per component, got %d", bpc)
+	}
+
+	if err := checkPredictorGeometry(columns, colors); err != nil {
+		return nil, err
 	}
 
 	// PNG predictors work on rows with a predictor byte at the start of each row
